@@ -42,6 +42,19 @@ CHECKS = {
              'and responder-side observation must equal the solo run on a fresh identical app.',
         note='Pre-emption granularity is a source line of pure-Python falcon; races inside one bytecode line or inside '
              'C code (lru_cache, dict ops) are not explored. Generated apps are order-independent by construction.'),
+    'C07': dict(
+        level='exploration', ref='DESIGN.md section 4 (C07)',
+        technique=TECH + 'seeded search over server chunkings / event shapes / short reads / early EOF / pipelined bytes / '
+                  'disconnect positions / delivery timing x operation histories; byte-conservation oracle with over-read probe',
+        text='Seeded exploration: request-body streams obtained through real falcon.App / falcon.asgi.App requests; a fake '
+             'wsgi.input (exact or short reads, early EOF, pipelined bytes of the next request as an over-read probe) and '
+             'scripted ASGI http.request events (arbitrary chunking, empty/oversized chunks, missing keys, http.disconnect at '
+             'every position, delivery timing chosen by the simulator). A history of <=8 stream operations runs inside a '
+             'responder; oracle = prefix, completeness at reported end-of-stream, sized-read cap, never asking the server beyond '
+             'Content-Length, tell/eof consistency, no blocking after a disconnect.',
+        note='End-of-stream is taken as reported when eof is true, a read returns b"" or iteration stops; ASGI histories '
+             'respect the documented restriction not to mix read() and iteration on a partially consumed body; tell() is '
+             'compared only on histories without exhaust()/close().'),
 }
 
 NOT_YET = {p: 'claimed in DESIGN.md; check under construction in this round (not yet registered)' for p in
